@@ -375,4 +375,98 @@ def runP (rtc : Bool) (trig : Trigger → EM (Option Res)) (isBase : Exc → Boo
   | _, .retFirst :: _, first => pure (first.getD .none)
 termination_by fuel l => (fuel, l.length)
 
+
+/-! ## `callbacks.py`: what "call the group" means — `CallbackWrapper.call/__call__`, `CallbacksExecutor.call/all/async_call/async_all` -/
+
+/-- how an executor invokes a wrapper: `callback.call(…)` (sync engine) or `callback(…)`, i.e. `__call__` (async) -/
+inductive Via | call | dunder
+deriving DecidableEq, Repr
+
+/-- one statement of `CallbackWrapper.call` / `CallbackWrapper.__call__` -/
+inductive WStmt
+  /-- `value = self._callback(*args, **kwargs)` -/
+  | invoke
+  /-- `if isawaitable(value): value = await value` -/
+  | awaitIfAwaitable
+  /-- `if self.expected_value is not None: return bool(value) == self.expected_value` -/
+  | compareIfExpected
+  /-- `return value` -/
+  | retValue
+deriving DecidableEq, Repr
+
+/-- one statement of an executor method -/
+inductive XStmt
+  /-- `return [callback.call(*args, **kwargs) for callback in self if callback.condition(*args, **kwargs)]` -/
+  | retListComp (via : Via)
+  /-- `for condition in self: if not [await] condition…(*args, **kwargs): return False` -/
+  | forGuards (via : Via) (awaited : Bool)
+  /-- `return True` -/
+  | retTrue
+  /-- `tasks = [asyncio.ensure_future(callback(*args, **kwargs)) for callback in self if callback.condition(…)]` -/
+  | spawnFiltered
+  /-- `try: return await asyncio.gather(*tasks)` / `except BaseException:` cancel every task, await them
+  (`return_exceptions=True`), `raise` (the repair of D33) -/
+  | tryGatherCancel
+deriving DecidableEq, Repr
+
+/-- what a wrapper hands back: the callback's value, or — for a guard — whether it came out as expected -/
+inductive WRes | val (v : Val) | bool (b : Bool)
+deriving DecidableEq, Repr
+
+/-- the statements after `invoke`, on the value the callback returned (`await`ing an awaitable gives its value:
+a coroutine callback is a callback) -/
+def tailW (truthy : Val → Bool) (expected : Option Bool) (v : Val) : List WStmt → WRes
+  | [] => .val v
+  | .invoke :: r => tailW truthy expected v r
+  | .awaitIfAwaitable :: r => tailW truthy expected v r
+  | .compareIfExpected :: r =>
+    match expected with
+    | some e => .bool (truthy v == e)
+    | none => tailW truthy expected v r
+  | .retValue :: _ => .val v
+
+/-- meaning of a wrapper script; `inv` is the user's callable -/
+def runW (inv : EM Val) (truthy : Val → Bool) (expected : Option Bool) : List WStmt → EM WRes
+  | .invoke :: r => do
+    let v ← inv
+    pure (tailW truthy expected v r)
+  | _ => do
+    let v ← inv
+    pure (.val v)
+
+/-- the loop of `all` / `async_all` over the guards of a transition, in executor order -/
+def guardLoop (inv : CbId → EM Val) (truthy : Val → Bool) (ws : List WStmt) : List (CbId × Bool) → EM Bool
+  | [] => pure true
+  | (c, e) :: r => do
+    match ← runW (inv c) truthy (some e) ws with
+    | .bool true => guardLoop inv truthy ws r
+    | _ => pure false
+
+/-- meaning of a guard-executor script (`all`, `async_all`); falling off the end returns `None`, which the caller's
+`if not …` reads as a rejection -/
+def runXG (inv : CbId → EM Val) (truthy : Val → Bool) (ws : List WStmt) : List XStmt → List (CbId × Bool) → EM Bool
+  | [], _ => pure false
+  | .forGuards _ _ :: r, gs => do
+    let ok ← guardLoop inv truthy ws gs
+    if ok then runXG inv truthy ws r gs else pure false
+  | .retTrue :: _, _ => pure true
+  | _ :: r, gs => runXG inv truthy ws r gs
+
+/-- every wrapper of the list called in order, values collected (the reading of `asyncio.gather` when nothing is
+said about interleaving inside a group: DESIGN 3.2) -/
+def callEach (inv : CbId → EM Val) (truthy : Val → Bool) (ws : List WStmt) : List CbId → EM (List Val)
+  | [] => pure []
+  | c :: cs => do
+    let w ← runW (inv c) truthy none ws
+    let vs ← callEach inv truthy ws cs
+    pure ((match w with | .val v => v | .bool _ => 0) :: vs)
+
+/-- meaning of an action-executor script (`call`, `async_call`): the wrappers whose `condition` holds for this event
+(`applicable`), each called -/
+def runXA (inv : CbId → EM Val) (truthy : Val → Bool) (ws : List WStmt) (ev : EventId) :
+    List XStmt → List CbSpec → EM (List Val)
+  | .retListComp _ :: _, specs => callEach inv truthy ws (applicable ev specs)
+  | .spawnFiltered :: .tryGatherCancel :: _, specs => callEach inv truthy ws (applicable ev specs)
+  | _, _ => pure []
+
 end SMV.Src
